@@ -96,7 +96,39 @@ func emittersBlocked() int {
 // c12One runs one export attempt under one fault and reports (lockedMetrics, leakedEmitters).
 func c12One(exp string, M, L int, kind string, mi, li int) (int, int, string) {
 	before := emittersBlocked()
+	withWriter := strings.HasSuffix(kind, "+w")
+	kind = strings.TrimSuffix(kind, "+w")
 	s, ms := c12Store(M, L, kind, mi, li)
+	stopW := make(chan struct{})
+	wDone := make(chan struct{})
+	stopped := false
+	stopWriter := func() {
+		if !stopped {
+			stopped = true
+			close(stopW)
+			select {
+			case <-wDone:
+			case <-time.After(time.Second):
+			}
+		}
+	}
+	defer stopWriter()
+	if !(withWriter && mi < len(ms)) {
+		close(wDone)
+	} else {
+		// line processing on the same metric while the export runs: GetDatum takes m.Lock()
+		go func(m *metrics.Metric) {
+			defer close(wDone)
+			for {
+				select {
+				case <-stopW:
+					return
+				default:
+				}
+				_, _ = m.GetDatum("v0")
+			}
+		}(ms[mi])
+	}
 	ctx, cancel := context.WithCancel(context.Background())
 	defer cancel()
 	e, err := exporter.New(ctx, s, exporter.Hostname("h"))
@@ -148,11 +180,16 @@ func c12One(exp string, M, L int, kind string, mi, li int) (int, int, string) {
 			}
 		}
 	}()
+	limit := 5 * time.Second
+	if withWriter {
+		limit = 2 * time.Second
+	}
 	select {
 	case <-done:
-	case <-time.After(5 * time.Second):
-		note = "export did not return within 5 s"
+	case <-time.After(limit):
+		return M, 0, "export did not return within " + limit.String() + " (deadlock)"
 	}
+	stopWriter()
 	locked := 0
 	for _, m := range ms {
 		if m.TryLock() {
@@ -180,12 +217,22 @@ func c12Faults(exp string, M, L int) [][3]string {
 			case "prom":
 				add("utf8", mi, li)
 				add("write", mi, li)
+				if li == 0 {
+					add("utf8+w", mi, li)
+					add("none+w", mi, li)
+				}
 			case "push":
 				add("write", mi, li)
 				add("utf8", mi, li)
+				if li == 0 {
+					add("write+w", mi, li)
+				}
 			case "varz", "graphite":
 				add("cancel", mi, li)
 				add("utf8", mi, li)
+				if li == 0 {
+					add("utf8+w", mi, li)
+				}
 			}
 		}
 		if exp == "prom" {
@@ -210,7 +257,7 @@ func c12Run(r *runCtx, id string, f []string) {
 			li, _ := strconv.Atoi(ft[2])
 			locked, leaked, note := c12One(exp, M, L, ft[0], mi, li)
 			n++
-			r.stat("faults_" + exp + "_" + ft[0])
+			r.stat("faults_" + exp + "_" + strings.ReplaceAll(ft[0], "+", "_"))
 			if locked != 0 || leaked != 0 || strings.HasPrefix(note, "panic") || strings.HasPrefix(note, "export did not") {
 				bad++
 				if firstBad == "" {
